@@ -68,7 +68,15 @@ fn zero_pattern_forms() -> Vec<(&'static str, [f64; 6])> {
             }
         }
         ("zero pattern of (c1,c2,c3,c4,u)", p)
-    }).collect()
+    }).chain([
+        // coefficients that cancel in a plain sum (all four, in pairs, with and without a tail)
+        ("c1+c2+c3+c4 = 0, u = 0", [0.5, 1.5, -2.0, 0.25, 0.25, 0.0]),
+        ("c1 = -c2, u = 0", [0.5, 1.0, -1.0, 0.0, 0.0, 0.0]),
+        ("c1+c2 = -(c3+c4), u = 0", [0.0, 1.0, 1.0, -1.0, -1.0, 0.0]),
+        ("c1+c2+c3+c4 = 0, u != 0", [0.25, 2.0, -1.0, -1.0, 0.0, 3.0]),
+        ("c1+c2+c3+c4+u = 0", [0.25, 1.0, 1.0, 1.0, 1.0, -4.0]),
+        ("k = -(c1+..+c4)", [-3.0, 0.5, 1.0, 1.0, 0.5, 0.0]),
+    ]).collect()
 }
 fn one_v_forms(v: f64, scale_big: bool, cx: &mut Cx, forms: Vec<(&'static str, [f64; 6])>) -> Verdict {
     let x = -(v.ln());
@@ -209,7 +217,7 @@ pub fn check(thorough: bool, seed: u64) -> Check {
             one_v_forms(v, v > 1e100, cx, zero_pattern_forms())
         }),
         classes: vec![],
-        bounds: json!({"forms": "k = 0.25 and every subset of (c1,c2,c3,c4,u) = (1.5,0.5,2,-0.75,3) set to zero (32 forms)", "arguments": if thorough {"v = exp(t), t = -8 + 16 j/1600, and {1,0.05,0.5,2,1e-30,1e30,1e-300,1e300,1-1e-10}"} else {"v = exp(t), t = -8 + 16 j/400, and {1,0.05,0.5,2,1e-30,1e30,1e-300,1e300,1-1e-10}"}}),
+        bounds: json!({"forms": "k = 0.25 and every subset of (c1,c2,c3,c4,u) = (1.5,0.5,2,-0.75,3) set to zero (32 forms), and six forms whose parameters cancel in a plain sum", "arguments": if thorough {"v = exp(t), t = -8 + 16 j/1600, and {1,0.05,0.5,2,1e-30,1e30,1e-300,1e300,1-1e-10}"} else {"v = exp(t), t = -8 + 16 j/400, and {1,0.05,0.5,2,1e-30,1e30,1e-300,1e300,1-1e-10}"}}),
     };
     let binades: Vec<f64> = (-1022..=1023).flat_map(|j| [2f64.powi(j), 1.5 * 2f64.powi(j)]).collect();
     let nb = binades.len();
